@@ -19,5 +19,6 @@ CONSTANTS
   ScionMacErrPanics = FALSE
   ScionTsOptUnchecked = FALSE
   ScionTsOptTrusted = FALSE
-INVARIANTS TypeOK OutcomeConsistent NeverDead NoSpin SentinelNotLost
+  CmsgLenUnchecked = FALSE
+INVARIANTS TypeOK OutcomeConsistent NeverDead NoSpin EveryIterationAdvances SentinelNotLost
 PROPERTIES Progress SentinelServed
